@@ -20,7 +20,8 @@ class NameModeForce(Suite):
 
     def gen(self, rng, tier):
         return [dict(names=n, data=d, delete=de) for n in (['exp1', 'exp10'], ['base', 'base_v2'], ['a', 'b'])
-                for d in ('json', 'dir') for de in (True, False)]
+                for d in ('json', 'dir') for de in (True, False)] + \
+               [dict(names=['a', 'b'], data='json', delete=de, order=o) for de in (True, False) for o in ('dependant_first',)]
 
     def run_impl(self, case):
         from pathlib import Path
@@ -28,6 +29,11 @@ class NameModeForce(Suite):
         from ..suites_chain import K
         classes = [dict(K(0, 'Feat', data=case['data']), name='features'), dict(K(1, 'Score', meta_inputs=[{'cls': 0}]), name='score')]
         files = {f'{n}.json': {'tasks': ['@M.*']} for n in case['names']}
+        if case.get('order') == 'dependant_first':      # the dependant is listed before its input
+            files = {f'{n}.json': {'tasks': ['@M.Score', '@M.Feat']} for n in case['names']}
+        elif case.get('order') == 'split_files':         # the dependant in the base config, its input in a used one
+            files = {f'{n}.json': {'tasks': ['@M.Score'], 'uses': f'{n}_up.json'} for n in case['names']}
+            files.update({f'{n}_up.json': {'tasks': ['@M.Feat']} for n in case['names']})
         full = dict(classes=classes, files=files, base={'file': f'{case["names"][0]}.json'}, context=None)
         with pl.workspace(full) as (d, mod):
             def chain(n):
